@@ -317,8 +317,47 @@ class InterpCore:
 
     # ------------------------------------------------------------------ statements
     def exec_block(self, stmts: List[ast.stmt], fr: Frame) -> None:
-        for st in stmts:
+        for i, st in enumerate(stmts):
+            if isinstance(st, ast.For) and i + 1 < len(stmts) and self._search_loop(st, stmts[i + 1], fr):
+                continue            # the loop was executed there (or summarised: then _Return was raised)
             self.exec_stmt(st, fr)
+
+    def _search_loop(self, st: ast.For, nxt: ast.stmt, fr: Frame) -> bool:
+        """Loop summary of the search idiom over a source that cannot be enumerated:
+            for t in S:                      return any(c for t in S)        (A, B) == (True, False)
+                if c: return A        ==>    return not any(c for t in S)    (A, B) == (False, True)
+            return B
+        so that the `False` outcome carries the universal fact (no member of S satisfies c)."""
+        if st.orelse or len(st.body) != 1 or not isinstance(nxt, ast.Return):
+            return False
+        b = st.body[0]
+        if not (isinstance(b, ast.If) and not b.orelse and len(b.body) == 1 and isinstance(b.body[0], ast.Return)):
+            return False
+        a_, b_ = b.body[0].value, nxt.value
+        if not (isinstance(a_, ast.Constant) and isinstance(b_, ast.Constant) and isinstance(a_.value, bool)
+                and isinstance(b_.value, bool) and a_.value is not b_.value):
+            return False
+        if any(isinstance(x, (ast.NamedExpr, ast.Yield, ast.YieldFrom, ast.Await)) for x in ast.walk(b.test)):
+            return False
+        it = self.eval(st.iter, fr)
+        if self._enumerable(it):                                # type: ignore[attr-defined]
+            self.steps += 1
+            self.s_For(st, fr, it)
+            return True
+        tmp = f"$it{getattr(st, 'lineno', 0)}"
+        fr.locals[tmp] = it
+        gen = ast.GeneratorExp(elt=b.test, generators=[ast.comprehension(
+            target=st.target, iter=ast.copy_location(ast.Name(id=tmp, ctx=ast.Load()), st.iter), ifs=[], is_async=0)])
+        ast.copy_location(gen, st)
+        try:
+            comp = self._comp(gen, fr, "gen")                   # type: ignore[attr-defined]
+        finally:
+            fr.locals.pop(tmp, None)
+        v = self._allany("any", [comp], st)                     # type: ignore[attr-defined]
+        if a_.value is False:
+            t = self.truth(v)
+            v = Const(not t) if t is not None else Term("not", (v,), kind="bool", node=st)
+        raise _Return(v)
 
     def exec_stmt(self, st: ast.stmt, fr: Frame) -> None:
         self.steps += 1
@@ -402,8 +441,62 @@ class InterpCore:
                 recv = self.eval(t.value, fr)
                 self.emit("write", st, how="delattr", target=recv, node_target=t)
 
-    def s_For(self, st: ast.For, fr: Frame) -> None:
-        it = self.eval(st.iter, fr)
+    def _append_loop(self, st: ast.For) -> Optional[Tuple[str, ast.expr, List[ast.expr]]]:
+        """`for t in S: [if c:] acc.append(e)`  /  `for t in S: if c: continue; acc.append(e)`  ->  (acc, e, [conds])."""
+        if st.orelse:
+            return None
+        body = list(st.body)
+        conds: List[ast.expr] = []
+        if len(body) == 2 and isinstance(body[0], ast.If) and not body[0].orelse and len(body[0].body) == 1 \
+                and isinstance(body[0].body[0], ast.Continue):
+            conds.append(ast.copy_location(ast.UnaryOp(op=ast.Not(), operand=body[0].test), body[0].test))
+            body = body[1:]
+        if len(body) == 1 and isinstance(body[0], ast.If) and not body[0].orelse and len(body[0].body) == 1:
+            conds.append(body[0].test)
+            body = body[0].body
+        if len(body) != 1 or not isinstance(body[0], ast.Expr):
+            return None
+        c = body[0].value
+        if not (isinstance(c, ast.Call) and isinstance(c.func, ast.Attribute) and c.func.attr in ("append", "add")
+                and isinstance(c.func.value, ast.Name) and len(c.args) == 1 and not c.keywords
+                and not isinstance(c.args[0], ast.Starred)):
+            return None
+        acc = c.func.value.id
+        for n in [c.args[0]] + conds + [st.target]:
+            if any(isinstance(x, ast.Name) and x.id == acc for x in ast.walk(n)):
+                return None      # the element depends on the accumulator: not a comprehension
+            if any(isinstance(x, (ast.NamedExpr, ast.Yield, ast.YieldFrom, ast.Await)) for x in ast.walk(n)):
+                return None
+        return acc + ":" + c.func.attr, c.args[0], conds
+
+    def s_For(self, st: ast.For, fr: Frame, it: Optional[V] = None) -> None:
+        if it is None:
+            it = self.eval(st.iter, fr)
+        # loop summary: an accumulation loop over a source that cannot be enumerated is the comprehension it spells
+        # (`acc.extend([e for t in S if c])`), so that its result keeps its relation to ALL of S (length, members)
+        pat = self._append_loop(st)
+        how = ""
+        if pat is not None:
+            name_, how = pat[0].split(":")
+            pat = (name_, pat[1], pat[2])
+            if not isinstance(fr.locals.get(name_), ListV if how == "append" else SetV):
+                pat = None
+        if pat is not None and not self._enumerable(it) \
+                and not (isinstance(it, Term) and it.op == "range" and all(isinstance(a, Const) for a in it.args)):
+            tmp = f"$it{getattr(st, 'lineno', 0)}"
+            fr.locals[tmp] = it
+            comp = (ast.ListComp if how == "append" else ast.SetComp)(elt=pat[1], generators=[ast.comprehension(
+                target=st.target, iter=ast.copy_location(ast.Name(id=tmp, ctx=ast.Load()), st.iter), ifs=pat[2], is_async=0)])
+            ast.copy_location(comp, st)
+            try:
+                res = self._comp(comp, fr, "list" if how == "append" else "set")           # type: ignore[attr-defined]
+            finally:
+                fr.locals.pop(tmp, None)
+            acc = fr.locals[pat[0]]
+            self._list_extend(acc, res, st)                  # type: ignore[attr-defined]
+            self.emit("write", st, how="method:" + how, target=acc, args=[res.args[0]] if isinstance(res, Term) and res.args else [],
+                      summarised=True)
+            return
         broke = False
         for item in self.iterate(it, st):
             self.assign(st.target, item, fr, st)
